@@ -5,6 +5,8 @@ use crate::util::Stats;
 use std::io::Write;
 
 pub mod url;
+pub mod inline;
+pub mod block;
 pub mod noderender;
 pub mod entity;
 pub mod codepair;
@@ -51,6 +53,8 @@ pub type StreamFn = fn(n: usize, rng: &mut Rng, out: &mut Out);
 pub fn streams() -> Vec<(&'static str, StreamFn)> {
     vec![
         ("url", url::run as StreamFn),
+        ("inline", inline::run as StreamFn),
+        ("block", block::run as StreamFn),
         ("noderender", noderender::run as StreamFn),
         ("entity", entity::run as StreamFn),
         ("codepair", codepair::run as StreamFn),
